@@ -210,13 +210,38 @@ func c16Check(c *C16Case) string {
 			// an own key named length shadows the method; count keys another way
 			lengthCall = fmt.Sprint(len(recv.Keys()))
 		}
-		prog := `{ print json($.o.pluck(` + strings.Join(args, ", ") + `)); print json($.o); print json(` + lengthCall + `) }`
+		// the copy and the original are independent: a store through one is invisible through the other
+		indep := ""
+		if len(c.Keys) > 0 && !strings.Contains(c.Keys[0], "length") && !strings.Contains(c.Keys[0], "pluck") {
+			// (a key that names a method reads as the method when the object lacks it)
+			k0 := c.Keys[0]
+			indep = `; p = $.o.pluck(` + k0 + `); p[` + k0 + `] = "changed-in-copy"; print json([$.o[` + k0 + `]])` +
+				`; q = $.o.pluck(` + k0 + `); $.o[` + k0 + `] = "changed-in-original"; print json([q[` + k0 + `]])`
+		}
+		prog := `{ print json($.o.pluck(` + strings.Join(args, ", ") + `)); print json($.o); print json(` + lengthCall + `)` + indep + ` }`
 		_, vals, msg := runJSON(prog, docOf(`"o":`+c.Obj))
 		if msg != "" {
 			return msg
 		}
-		if len(vals) != 3 {
+		if len(vals) != 3 && len(vals) != 5 {
 			return "unexpected output shape"
+		}
+		if len(vals) == 5 {
+			kv, _ := jsonx.Parse(c.Keys[0])
+			ks := kv.S
+			if kv.K == jsonx.Num {
+				ks = ref.Dec(kv.N)
+			}
+			orig := recv.Get(ks)
+			if orig == nil {
+				orig = jsonx.VNull()
+			}
+			for i, what := range []string{"a store into the plucked copy changed the original", "a store into the original changed the plucked copy"} {
+				got := vals[3+i]
+				if got.K != jsonx.Arr || len(got.Items) != 1 || !jsonx.Equal(got.Items[0], orig) {
+					return fmt.Sprintf("%s: member %s is now %s, was %s", what, c.Keys[0], jsonx.Compact(got), jsonx.Compact(orig))
+				}
+			}
 		}
 		want := jsonx.VObj()
 		for _, k := range c.Keys {
